@@ -98,12 +98,20 @@ func (p *UnsafePool) get(v Value) *weakRef {
 // Mark marks v for finalizing, i.e. when v is garbage collected, its finalizer
 // should be run.  It only takes effect if v can have a weak ref.
 func (p *UnsafePool) Mark(v Value, flags MarkFlags) {
-	if flags == 0 {
-		return
-	}
 	if q := p.owner(v); q != nil {
 		// The value belongs to an enclosing context: keep it there.
 		q.Mark(v, flags)
+		return
+	}
+	if flags == 0 {
+		// Nothing is owed to v anymore (as in ClonePool); if the pool knows
+		// v it keeps its weak ref.
+		p.mx.Lock()
+		defer p.mx.Unlock()
+		if r := p.weakrefs[getwiface(v).id()]; r != nil {
+			r.setFlag(wrFinalized)
+			r.setFlag(wrReleased)
+		}
 		return
 	}
 	p.mx.Lock()
